@@ -32,10 +32,14 @@ impl Adapter for RateLimiterAd {
         let l = 1 + rng.below(if size == Size::Quick { 3 } else { 5 });
         let p = *rng.pick(&[3u64, 4, 5, 8]);
         let t = *rng.pick(&[0u64, 1, 2, p - 1, p, p + 1, 2 * p, 2 * p + 1, 4 * p]);
-        json!({"hm": rng.below(4), "win": win, "L": l, "P": p, "T": t})
+        json!({"hm": rng.below(4), "win": win, "L": l, "P": p, "T": t, "slow": if rng.pct(35) { 1 } else { 0 }})
     }
     fn build(&mut self, cfg: &Value, sim: &mut Sim) {
-        sim.w.lock().unwrap().auto = Some(GOut::Ok);
+        // slow = 1: admitted calls stay inside the inner service until the environment resolves them (or the caller is
+        // cancelled); otherwise the inner service answers at once
+        if cfg["slow"].as_u64().unwrap_or(0) == 0 {
+            sim.w.lock().unwrap().auto = Some(GOut::Ok);
+        }
         let wt = match cfg["win"].as_str().unwrap() {
             "fixed" => WindowType::Fixed,
             "log" => WindowType::SlidingLog,
@@ -65,6 +69,11 @@ impl Adapter for RateLimiterAd {
         d.w_complete = 0;
         d.w_create = 5;
         d.w_drop = 1;
+        if cfg["slow"].as_u64().unwrap_or(0) == 1 {
+            d.w_complete = 2;
+            d.w_drop = 3;
+            d.outs = vec![(GOut::Ok, 3), (GOut::Err(1), 2), (GOut::Panic, 1)];
+        }
         d.max_adv = if rng.pct(30) { 2 * p + 1 } else { 2 };
         d
     }
